@@ -155,6 +155,17 @@ theorem first_statement_output_is_prefix_of_final (cfg : Cfg) (f : Nat) (s : Stm
   simp only [program, hs, Res.bind_ok]
   exact ((outAll cfg f).program ss σ1).endOutput_prefix
 
+/-- the same, outcome by outcome: `St.output σ1 <+: St.output σfinal` -/
+theorem program_output_extends_first_statement (cfg : Cfg) (f : Nat) (s : Stmt) (ss : List Stmt) (σ σ1 : St)
+    (hs : stmt cfg f s σ = .ok σ1) :
+    (∀ σf, program cfg (f+1) (s :: ss) σ = .ok σf → σ1.output <+: σf.output) ∧
+    (∀ e σf, program cfg (f+1) (s :: ss) σ = .err e σf → σ1.output <+: σf.output) ∧
+    (∀ w σf, program cfg (f+1) (s :: ss) σ = .terminate w σf → σ1.output <+: σf.output) ∧
+    (∀ p o, program cfg (f+1) (s :: ss) σ = .panic p o → σ1.output <+: o.reverse.flatten) := by
+  have h := (first_statement_output_is_prefix_of_final cfg f s ss σ σ1 hs).2
+  exact ⟨fun σf hr => h _ (by rw [hr]; rfl), fun e σf hr => h _ (by rw [hr]; rfl),
+    fun w σf hr => h _ (by rw [hr]; rfl), fun p o hr => h _ (by rw [hr]; rfl)⟩
+
 /-- a runtime error state carries all output produced before the error -/
 theorem runtime_error_after_all_earlier_output (cfg : Cfg) (f : Nat) (ss : List Stmt) (σ σ' : St) (e : RtErr)
     (h : program cfg f ss σ = .err e σ') : σ.output <+: σ'.output :=
